@@ -28,6 +28,7 @@
 #include <sched.h>
 #include <limits.h>
 #include <execinfo.h>
+#include <fcntl.h>
 #include <sys/syscall.h>
 #include <linux/futex.h>
 #include "rt.h"
@@ -212,6 +213,10 @@ void rt_distinct_add (uint64_t h) { hset_add (&hset_nt, &hcap_nt, &hcnt_nt, h); 
 /* ------------------------------------------------------------------------------------ */
 /* raw futex for the runtime's own parking */
 long __real_syscall (long n, ...);
+/* raw sleeps/yields: the sanitizer runtimes intercept nanosleep/usleep/sched_yield even in
+   uninstrumented code (gcc 12 libtsan can deadlock between AfterSleep and ReportRace) */
+static void raw_sleep_ns (long sec, long ns) { struct timespec ts = { sec, ns }; __real_syscall (SYS_nanosleep, &ts, NULL); }
+static void raw_yield (void) { __real_syscall (SYS_sched_yield); }
 static void park (int id) {
 	while (__atomic_load_n (&T[id].turn, __ATOMIC_ACQUIRE) == 0) {
 		__real_syscall (SYS_futex, &T[id].turn, FUTEX_WAIT_PRIVATE, 0, NULL, NULL, 0);
@@ -239,9 +244,16 @@ static void json_str (FILE *f, const char *s) {
 static const char *base_name (const char *p) { const char *b = p ? strrchr (p, '/') : NULL; return (b ? b + 1 : (p ? p : "")); }
 static int64_t vclock_ns;
 static char sched_rle[1 << 16]; static size_t sched_rle_n; static int rle_last = -1; static long rle_cnt;
+static size_t put_num (char *b, long v) { char t[24]; int n = 0; size_t k = 0; if (v == 0) t[n++] = '0'; while (v > 0) { t[n++] = (char) ('0' + v % 10); v /= 10; } while (n > 0) b[k++] = t[--n]; return (k); }
 static void rle_flush (void) {
-	if (rle_last >= 0 && sched_rle_n + 32 < sizeof (sched_rle))
-		sched_rle_n += (size_t) snprintf (sched_rle + sched_rle_n, 32, "%s[%d,%ld]", sched_rle_n ? "," : "", rle_last, rle_cnt);
+	/* no libc calls here: the sanitizer runtimes intercept them even in uninstrumented code */
+	if (rle_last >= 0 && sched_rle_n + 48 < sizeof (sched_rle)) {
+		char *b = sched_rle + sched_rle_n;
+		size_t k = 0;
+		if (sched_rle_n) b[k++] = ',';
+		b[k++] = '['; k += put_num (b + k, rle_last); b[k++] = ','; k += put_num (b + k, rle_cnt); b[k++] = ']'; b[k] = 0;
+		sched_rle_n += k;
+	}
 }
 static void rle_add (int t) { if (t == rle_last) { rle_cnt++; return; } rle_flush (); rle_last = t; rle_cnt = 1; }
 static const char *strat_now = "rw"; static int p_switch_ppm, p_fire_ppm, pct_d;
@@ -438,10 +450,10 @@ static uint64_t a_progress;          /* bumped by round driver; watchdog */
 
 static void a_perturb (int site) {
 	uint64_t r = xs (&T[me].rng) % 1000000u;
-	if (site >= 0 && site == focus_site) { struct timespec ts = { 0, (long) (20000 + xs (&T[me].rng) % 180000) }; nanosleep (&ts, NULL); return; }
-	if (r < (uint64_t) prof_yield_ppm) sched_yield ();
+	if (site >= 0 && site == focus_site) { raw_sleep_ns (0, (long) (20000 + xs (&T[me].rng) % 180000)); return; }
+	if (r < (uint64_t) prof_yield_ppm) raw_yield ();
 	else if (r < (uint64_t) (prof_yield_ppm + prof_spin_ppm)) { unsigned n = (unsigned) (xs (&T[me].rng) % 2000); for (volatile unsigned i = 0; i < n; i++) { } }
-	else if (r < (uint64_t) (prof_yield_ppm + prof_spin_ppm + prof_sleep_ppm)) { struct timespec ts = { 0, (long) (xs (&T[me].rng) % 200000) }; nanosleep (&ts, NULL); }
+	else if (r < (uint64_t) (prof_yield_ppm + prof_spin_ppm + prof_sleep_ppm)) { raw_sleep_ns (0, (long) (xs (&T[me].rng) % 200000)); }
 }
 
 /* snapshot for quiescence: returns 1 if every participant other than `self` is done, or
@@ -473,7 +485,7 @@ static void *a_monitor (void *arg) {
 	(void) arg;
 	uint64_t last_progress = 0; time_t last_change = time (NULL);
 	for (;;) {
-		struct timespec ts = { 0, 20 * 1000 * 1000 }; nanosleep (&ts, NULL);
+		raw_sleep_ns (0, 20 * 1000 * 1000);
 		if (a_progress != last_progress) { last_progress = a_progress; last_change = time (NULL); }
 		else if (time (NULL) - last_change > watchdog_s) {
 			fprintf (stderr, "RT-INCONCLUSIVE scenario=%s round=%llu: watchdog (%d s without a completed round)\n", rt_scen.name, (unsigned long long) cur_round, watchdog_s);
@@ -487,7 +499,7 @@ static void *a_monitor (void *arg) {
 			uint64_t cc = __atomic_load_n (&g_stamp, __ATOMIC_ACQUIRE);
 			if (k > 0 && cc != c) break;
 			c = cc; stable++;
-			if (k < 2) { struct timespec t2 = { 0, 50 * 1000 * 1000 }; nanosleep (&t2, NULL); }
+			if (k < 2) { raw_sleep_ns (0, 50 * 1000 * 1000); }
 		}
 		if (stable == 3 && round_running) {
 			char sig[256]; blocked_signature (sig, sizeof (sig));
@@ -531,7 +543,7 @@ void rt_point (const char *tag) {
 void rt_sleep_us (unsigned us) {
 	if (me < 0) return;
 	if (mode_b) { vclock_ns += (int64_t) us * 1000; sched_point (0); }
-	else { struct timespec ts = { us / 1000000, (long) (us % 1000000) * 1000 }; nanosleep (&ts, NULL); }
+	else { raw_sleep_ns ((long) (us / 1000000), (long) (us % 1000000) * 1000); }
 }
 void rt_op_begin (const char *op) { if (me >= 0) { T[me].op = op; T[me].at = NULL; T[me].op_sleeps = 0; T[me].op_steps = 0; } }
 void rt_op_end (void) { if (me >= 0) T[me].op = NULL; }
@@ -547,11 +559,11 @@ void rt_wait_quiescent (void) {
 		int nb, nq;
 		if (a_quiescent_snapshot (me, &nb, &nq) && nq == 0) {
 			/* confirm once more after a short pause */
-			struct timespec ts = { 0, 200 * 1000 }; nanosleep (&ts, NULL);
+			raw_sleep_ns (0, 200 * 1000);
 			uint64_t c = __atomic_load_n (&g_stamp, __ATOMIC_ACQUIRE);
 			if (a_quiescent_snapshot (me, &nb, &nq) && nq == 0 && c == __atomic_load_n (&g_stamp, __ATOMIC_ACQUIRE)) break;
 		}
-		struct timespec ts = { 0, 100 * 1000 }; nanosleep (&ts, NULL);
+		raw_sleep_ns (0, 100 * 1000);
 	}
 	__atomic_store_n (&T[me].state, ST_RUN, __ATOMIC_RELEASE);
 }
@@ -590,7 +602,7 @@ long __wrap_syscall (long n, long a, long b, long c, long d, long e, long f) {
 			__atomic_fetch_add (&g_stamp, 1, __ATOMIC_ACQ_REL);
 			__atomic_store_n (&T[me].a_blocked, 0, __ATOMIC_RELEASE);
 			if (!(r == -1 && se == EAGAIN)) { T[me].sleeps++; T[me].op_sleeps++; }
-			if (T[me].wake_delay_us) { struct timespec wd = { 0, (long) T[me].wake_delay_us * 1000 }; nanosleep (&wd, NULL); }
+			if (T[me].wake_delay_us) { raw_sleep_ns (0, (long) T[me].wake_delay_us * 1000); }
 			errno = se;
 			return (r);
 		}
@@ -664,7 +676,7 @@ void real_cpp_yield (void) __asm__ ("__real__ZN5nsync12nsync_yield_Ev") __attrib
 static void do_yield (void) {
 	if (me >= 0 && mode_b && sched_active) { if (ring_on) ring_put (EV_YIELD, NULL, 0, NULL); sched_point (1); return; }
 	if (me >= 0) __atomic_fetch_add (&g_stamp, 1, __ATOMIC_RELAXED);
-	sched_yield ();
+	raw_yield ();
 }
 void __wrap_nsync_yield_ (void) { do_yield (); }
 void rt_yield (void) { do_yield (); }
@@ -735,11 +747,32 @@ void *__wrap_malloc (size_t n) {
 /* ------------------------------------------------------------------------------------ */
 /* crashes and sanitizer deaths */
 void __sanitizer_set_death_callback (void (*cb) (void)) __attribute__ ((weak));
+/* Called by the sanitizer runtime while it is dying, possibly holding its internal locks:
+   no libc (every libc entry point is intercepted), only raw system calls. */
+static char dw[2048]; static size_t dwn;
+static void dw_s (const char *s) { while (s && *s && dwn + 2 < sizeof (dw)) { char c = *s++; if (c == '"' || c == '\\' || (unsigned char) c < 0x20) c = '_'; dw[dwn++] = c; } }
+static void dw_n (uint64_t v) { char t[24]; int n = 0; if (v == 0) t[n++] = '0'; while (v > 0) { t[n++] = (char) ('0' + v % 10); v /= 10; } while (n > 0 && dwn + 2 < sizeof (dw)) dw[dwn++] = t[--n]; }
 static void on_sanitizer_death (void) {
 	if (__atomic_exchange_n (&dying, 1, __ATOMIC_ACQ_REL)) return;
-	char sig[160]; snprintf (sig, sizeof (sig), "%s", (me >= 0 && T[me].op) ? T[me].op : "harness");
-	write_witness ("sanitizer", sig, "a sanitizer report terminated the process; see the sanitizer log next to this witness");
-	fflush (NULL);
+	const char *op = (me >= 0 && T[me].op) ? T[me].op : "harness";
+	dwn = 0;
+	dw_s ("{"); dwn--; dw[dwn++] = '{';
+	dw[dwn++] = '"'; dw_s ("property"); dw[dwn++] = '"'; dw[dwn++] = ':'; dw[dwn++] = '"'; dw_s (rt_scen.property); dw[dwn++] = '"';
+	dw[dwn++] = ','; dw[dwn++] = '"'; dw_s ("oracle"); dw[dwn++] = '"'; dw[dwn++] = ':'; dw[dwn++] = '"'; dw_s ("sanitizer"); dw[dwn++] = '"';
+	dw[dwn++] = ','; dw[dwn++] = '"'; dw_s ("key"); dw[dwn++] = '"'; dw[dwn++] = ':'; dw[dwn++] = '"'; dw_s (rt_scen.property); dw_s (":sanitizer:"); dw_s (rt_scen.name); dw_s (":"); dw_s (op); dw[dwn++] = '"';
+	dw[dwn++] = ','; dw[dwn++] = '"'; dw_s ("detail"); dw[dwn++] = '"'; dw[dwn++] = ':'; dw[dwn++] = '"'; dw_s ("a sanitizer report terminated the process during "); dw_s (op); dw[dwn++] = '"';
+	dw[dwn++] = ','; dw[dwn++] = '"'; dw_s ("mode"); dw[dwn++] = '"'; dw[dwn++] = ':'; dw[dwn++] = '"'; dw_s (mode_b ? "B" : "A"); dw[dwn++] = '"';
+	dw[dwn++] = ','; dw[dwn++] = '"'; dw_s ("scenario"); dw[dwn++] = '"'; dw[dwn++] = ':'; dw[dwn++] = '"'; dw_s (rt_scen.name); dw[dwn++] = '"';
+	dw[dwn++] = ','; dw[dwn++] = '"'; dw_s ("config"); dw[dwn++] = '"'; dw[dwn++] = ':'; dw[dwn++] = '"'; dw_s (config_name); dw[dwn++] = '"';
+	dw[dwn++] = ','; dw[dwn++] = '"'; dw_s ("seed"); dw[dwn++] = '"'; dw[dwn++] = ':'; dw_n (base_seed);
+	dw[dwn++] = ','; dw[dwn++] = '"'; dw_s ("start_round"); dw[dwn++] = '"'; dw[dwn++] = ':'; dw_n (start_round);
+	dw[dwn++] = ','; dw[dwn++] = '"'; dw_s ("round"); dw[dwn++] = '"'; dw[dwn++] = ':'; dw_n (cur_round);
+	dw[dwn++] = ','; dw[dwn++] = '"'; dw_s ("steps"); dw[dwn++] = '"'; dw[dwn++] = ':'; dw_n (round_steps);
+	dw[dwn++] = '}'; dw[dwn++] = '\n';
+	if (witness_path) {
+		long fd = __real_syscall (SYS_openat, (long) AT_FDCWD, witness_path, (long) (O_WRONLY | O_CREAT | O_TRUNC), 0644L);
+		if (fd >= 0) { __real_syscall (SYS_write, fd, dw, (long) dwn); __real_syscall (SYS_close, fd); }
+	}
 }
 static void on_signal (int s, siginfo_t *si, void *uc) {
 	(void) uc;
